@@ -9,9 +9,12 @@
    encoding, every call succeeds, and the strict reader yields the written tags.
    Masters given as Full items (third part): the same, with one write call per top-level item.
    PARTIAL: declared paths without global placeholders; raw tags are covered by the correspondence check only.
-   Reader half, second class (last part of this file, Proofs/RoundTripKnown.v): documents in which every master has a known
-   size, declared paths with global placeholders allowed (global elements, recursive masters). *)
-From Ebml Require Import Base Tools Spec Writer Reader Pure Encode Proofs.Tactics Proofs.ReaderIO Proofs.Refine Proofs.PureProofs Proofs.RollUp Proofs.RoundTrip Proofs.RoundTripKnown Proofs.WriteEnc Proofs.WriteFull.
+   Reader half, second class (fourth part of this file, Proofs/RoundTripKnown.v): documents in which every master has a known
+   size, declared paths with global placeholders allowed (global elements, recursive masters).
+   Raw tags (last part of this file, Proofs/RoundTripRaw.v): the second class extended with raw leaves (well-formed ids the
+   specification does not declare, any payload, anywhere in the document), read by the configurations that tolerate
+   unknown ids; the writer's two ways of emitting a raw tag; write -> read for known-size documents with raw tags. *)
+From Ebml Require Import Base Tools Spec Writer Reader Pure Encode Proofs.Tactics Proofs.ReaderIO Proofs.Refine Proofs.PureProofs Proofs.RollUp Proofs.RoundTrip Proofs.RoundTripKnown Proofs.RoundTripRaw Proofs.WriteEnc Proofs.WriteFull.
 
 (* every conforming document — any nesting depth, any payloads, any size widths, any subset of masters of unknown size — is
    read back as exactly its items (masters as Start/End pairs, offsets of the first byte of each element), then None *)
@@ -266,3 +269,157 @@ Example C01_ex_known_needs_dstart :
   p_run C01k_cfg (enc_forest [inner]) [RAll] = [OItem (TStart 132) 0; OErr (RHierarchy 16643 (Some 132))] /\
   p_run C01k_cfg (enc_forest [RNode 129 (Some 1%nat) []; inner]) [RAll] = items_forest 0 [RNode 129 (Some 1%nat) []; inner] ++ [ONone].
 Proof. vm_compute. split; reflexivity. Qed.
+
+(* ------------------------------------------------------------------ raw tags, unknown ids tolerated *)
+(* PARTIAL — C01's last sentence, "raw tags with well-formed ids round-trip when unknown ids are allowed", for documents in
+   which every master has a known size.
+   Configuration [lenient_id c]: [c_allow_id c = true], hierarchy and size validation on ([c_allow_hier c = false],
+   [c_allow_over c = false]); no buffered masters, End items at the end of the input.
+   Documents [xconf c ids t]: [kconf c ids t] (every master of known size; every declared element's path — global
+   placeholders allowed — matches the chain of masters it sits in; payloads decode; sizes fit their fields and [c_max]),
+   except that a leaf may also be RAW: [RLeaf id (VRaw pl) pl sl] with [idok id] (a well-formed vint),
+   [get_type (c_sp c) id = None] (not declared), any payload bytes [wf_bytes pl], a size width [sl] that carries the length,
+   the length within [c_max].  A raw leaf may occur ANYWHERE — top level or inside any master: the reader performs no
+   hierarchy check for an undeclared id, the id ends no open master, and it leaves the "document position determined" flag
+   untouched (like a global element).  Its item is [OItem (TElem id (VRaw pl)) off], [off] the offset of its first byte.
+   [xdstart c f] is [dstart c f] read with that in mind: the first element of the document that determines the position
+   (declared, placeholder-free path) is a top-level root element (declared with the empty path); raw leaves may precede it.
+   In particular every document whose first declared top-level element is a root element ([starts_at_root_x]). *)
+Theorem C01_reader_roundtrip_raw_partial : forall c f, lenient_id c -> c_buffered c = [] -> c_emit_eof c = true ->
+  Forall (xconf c []) f -> xdstart c f -> p_run c (enc_forest f) [RAll] = items_forest 0 f ++ [ONone].
+Proof. exact reader_roundtrip_raw. Qed.
+
+(* the same for every configuration that validates hierarchy and sizes, [c_allow_id] arbitrary ([xconf] allows raw leaves only
+   when [c_allow_id c = true]); it subsumes C01_reader_roundtrip_known_partial ([kconf] -> [xconf], [dstart] -> [xdstart]) *)
+Theorem C01_reader_roundtrip_tol_partial : forall c f, tol c -> c_buffered c = [] -> c_emit_eof c = true ->
+  Forall (xconf c []) f -> xdstart c f -> p_run c (enc_forest f) [RAll] = items_forest 0 f ++ [ONone].
+Proof. exact reader_roundtrip_tol. Qed.
+
+Theorem C01_raw_class_extends : forall c f, Forall (kconf c []) f -> dstart c f -> Forall (xconf c []) f /\ xdstart c f.
+Proof.
+  intros c f Hc Hd. split; [|apply (kconf_xdstart c []); assumption].
+  rewrite Forall_forall in *. intros t Hin. apply kconf_xconf, Hc, Hin.
+Qed.
+
+Theorem C01_raw_leaf_in_class : forall c ids id pl sl, c_allow_id c = true -> raw_leaf_ok c id pl sl ->
+  xconf c ids (RLeaf id (VRaw pl) pl sl).
+Proof. exact raw_leaf_xconf. Qed.
+
+Theorem C01_reader_roundtrip_raw_root_partial : forall c f, lenient_id c -> c_buffered c = [] -> c_emit_eof c = true ->
+  Forall (xconf c []) f -> starts_at_root_x c f -> p_run c (enc_forest f) [RAll] = items_forest 0 f ++ [ONone].
+Proof. exact reader_roundtrip_raw_root. Qed.
+
+Theorem C01_reader_roundtrip_raw_buffered_partial : forall c f cap0 script, calm script -> lenient_id c -> c_buffered c = [] ->
+  c_emit_eof c = true -> Forall (xconf c []) f -> xdstart c f ->
+  run_reader c cap0 script (enc_forest f) [RAll] = items_forest 0 f ++ [ONone].
+Proof. exact reader_roundtrip_raw_buffered. Qed.
+
+Theorem C01_reader_roundtrip_raw_tags_partial : forall c f, lenient_id c -> c_buffered c = [] -> c_emit_eof c = true ->
+  Forall (xconf c []) f -> xdstart c f -> map out_tag (p_run c (enc_forest f) [RAll]) = map Some (tags_forest f) ++ [None].
+Proof. exact reader_roundtrip_raw_tags. Qed.
+
+(* writer half.  One raw tag: write(TElem id (VRaw pl)) for an undeclared vint id, and write_raw(id, pl) (no check of the id at
+   all), both append exactly id ++ size field ++ pl — the encoding of the raw leaf — on a destination that accepts everything,
+   whatever masters are open ([image] = bytes delivered ++ bytes held back for open known-size masters) *)
+Theorem C01_write_raw_element_layout : forall sp st id pl d sl, get_type sp id = None -> is_vint id = true ->
+  field_ok d sl (N.of_nat (length pl)) -> w_script st = [] ->
+  exists st', wstep sp st (OpWrite (TElem id (VRaw pl)) (wopt d sl)) = (st', WOk) /\ w_open st' = w_open st /\ w_script st' = [] /\
+    image st' = image st ++ enc_tree (RLeaf id (VRaw pl) pl sl) /\
+    (has_known (w_open st) = true -> w_dest st' = w_dest st) /\ (has_known (w_open st) = false -> w_buf st' = []).
+Proof. exact write_raw_elem_step. Qed.
+
+Theorem C01_write_raw_layout : forall sp st id pl sl, field_ok true sl (N.of_nat (length pl)) -> w_script st = [] ->
+  exists st', wstep sp st (OpRaw id pl) = (st', WOk) /\ w_open st' = w_open st /\ w_script st' = [] /\
+    image st' = image st ++ enc_tree (RLeaf id (VRaw pl) pl sl) /\
+    (has_known (w_open st) = true -> w_dest st' = w_dest st) /\ (has_known (w_open st) = false -> w_buf st' = []).
+Proof. exact write_raw_step. Qed.
+
+(* whole documents: [wxconf sp d ids t] is [wconf sp d ids t] (declared path = the chain, no placeholders) with raw leaves
+   anywhere (undeclared vint id, value VRaw of the payload, size width as for every element); masters of known or unknown size *)
+Theorem C01_writer_encodes_raw_partial : forall sp d f, Forall (wxconf sp d []) f ->
+  (Forall (fun r => fst r = WOk) (fst (run_writer sp (wops_forest d f) []))) /\ (snd (run_writer sp (wops_forest d f) []) = enc_forest f).
+Proof. exact writer_encodes_raw. Qed.
+
+(* write -> read with raw tags, every master of known size: the lenient reader yields the written tags *)
+Theorem C01_roundtrip_raw_partial : forall c d f, lenient_id c -> c_buffered c = [] -> c_emit_eof c = true ->
+  Forall (wxconf (c_sp c) d []) f -> Forall (rconf c) f -> Forall RoundTripKnown.all_known f ->
+  Forall (fun r => fst r = WOk) (fst (run_writer (c_sp c) (wops_forest d f) [])) /\
+  map out_tag (p_run c (snd (run_writer (c_sp c) (wops_forest d f) [])) [RAll]) = map op_tag (wops_forest d f) ++ [None].
+Proof. exact write_read_roundtrip_raw. Qed.
+
+(* the specification of C01k_sp read leniently; 191 (one byte) and 16700 (two bytes) are well-formed ids it does not declare *)
+Definition C01r_cfg : cfg :=
+  {| c_sp := C01k_sp; c_allow_id := true; c_allow_hier := false; c_allow_over := false; c_max := Some 4000000000; c_buffered := [];
+     c_emit_eof := true |}.
+(* Raw191 Root { Raw16700(empty) Seg { Val 5 Raw191 } Void } Raw191 *)
+Definition C01r_doc : list rtree :=
+  [ RLeaf 191 (VRaw [1; 2; 3]) [1; 2; 3] 1%nat;
+    RNode 129 (Some 1%nat)
+      [ RLeaf 16700 (VRaw []) [] 2%nat;
+        RNode 130 (Some 1%nat) [ RLeaf 16641 (VU 5) [5] 1%nat; RLeaf 191 (VRaw [9]) [9] 1%nat ];
+        C01k_void ];
+    RLeaf 191 (VRaw [255]) [255] 1%nat ].
+
+Example C01_ex_raw_conf : lenient_id C01r_cfg /\ Forall (xconf C01r_cfg []) C01r_doc /\ xdstart C01r_cfg C01r_doc.
+Proof.
+  assert (I1 : idok 129) by (exists 1%nat, 1; repeat split; cbn; lia).
+  assert (I2 : idok 130) by (exists 1%nat, 2; repeat split; cbn; lia).
+  assert (I5 : idok 236) by (exists 1%nat, 108; repeat split; cbn; lia).
+  assert (I6 : idok 16641) by (exists 2%nat, 257; repeat split; cbn; lia).
+  assert (I8 : idok 191) by (exists 1%nat, 63; repeat split; cbn; lia).
+  assert (I9 : idok 16700) by (exists 2%nat, 316; repeat split; cbn; lia).
+  assert (R : forall ids id pl sl, idok id -> get_type C01k_sp id = None -> (1 <= sl <= 8)%nat ->
+            N.of_nat (length pl) < 2 ^ (7 * N.of_nat sl) - 1 -> wf_bytes pl -> N.of_nat (length pl) <= 4000000000 ->
+            xconf C01r_cfg ids (RLeaf id (VRaw pl) pl sl)).
+  { intros ids id pl sl H1 H2 H3 H4 H5 H6. apply raw_leaf_xconf; [reflexivity|]. split; [exact H1|]. split; [exact H2|].
+    split; [exact H3|]. split; [exact H4|]. split; [exact H5|exact H6]. }
+  assert (N : forall ids id sl cs, idok id -> (1 <= sl <= 8)%nat -> flen cs < 2 ^ (7 * N.of_nat sl) - 1 ->
+            get_type C01k_sp id = Some DMaster -> path_matches (get_path C01k_sp id) ids = true -> flen cs <= 4000000000 ->
+            Forall (xconf C01r_cfg (ids ++ [id])) cs -> xconf C01r_cfg ids (RNode id (Some sl) cs)).
+  { intros ids id sl cs H1 H2 H3 H4 H5 H6 H7. apply xconf_node. split; [exact H1|]. split; [exists sl; split; [reflexivity|split; assumption]|].
+    split; [exact H4|]. split; [exact H5|]. split; [exact H6|exact H7]. }
+  split; [repeat split|]. split.
+  - constructor; [|constructor; [|constructor; [|constructor]]].
+    + apply R; [assumption|reflexivity|lia|cbn; lia|repeat constructor; lia|cbn; lia].
+    + apply N; [assumption|lia|vm_compute; reflexivity|reflexivity|reflexivity|vm_compute; discriminate|].
+      constructor; [|constructor; [|constructor; [|constructor]]].
+      * apply R; [assumption|reflexivity|lia|cbn; lia|constructor|cbn; lia].
+      * apply N; [assumption|lia|vm_compute; reflexivity|reflexivity|reflexivity|vm_compute; discriminate|].
+        constructor; [|constructor; [|constructor]].
+        -- cbn [xconf]. split; [exact I6|]. split; [lia|]. split; [cbn; lia|]. split; [repeat constructor; lia|].
+           split; [vm_compute; discriminate|]. left. exists DUInt. split; [reflexivity|]. split; [discriminate|]. split; reflexivity.
+        -- apply R; [assumption|reflexivity|lia|cbn; lia|repeat constructor; lia|cbn; lia].
+      * cbn [xconf C01k_void]. split; [exact I5|]. split; [lia|]. split; [cbn; lia|]. split; [repeat constructor; lia|].
+        split; [vm_compute; discriminate|]. left. exists DBinary. split; [reflexivity|]. split; [discriminate|]. split; reflexivity.
+    + apply R; [assumption|reflexivity|lia|cbn; lia|repeat constructor; lia|cbn; lia].
+  - cbn [xdstart C01r_doc rid]. right. split; [reflexivity|]. left. split; [vm_compute; discriminate|reflexivity].
+Qed.
+
+(* raw tags before the first root, inside masters at depths 1 and 2 (one with an empty payload and a two-byte size field),
+   between declared elements, and after the last root: the document is read back as exactly its items *)
+Example C01_ex_raw_run :
+  enc_forest C01r_doc = [191; 131; 1; 2; 3; 129; 144; 65; 60; 64; 0; 130; 135; 65; 1; 129; 5; 191; 129; 9; 236; 129; 0; 191; 129; 255] /\
+  p_run C01r_cfg (enc_forest C01r_doc) [RAll] = items_forest 0 C01r_doc ++ [ONone] /\
+  p_run C01r_cfg (enc_forest C01r_doc) [RAll] =
+    [OItem (TElem 191 (VRaw [1; 2; 3])) 0; OItem (TStart 129) 5; OItem (TElem 16700 (VRaw [])) 7; OItem (TStart 130) 11;
+     OItem (TElem 16641 (VU 5)) 13; OItem (TElem 191 (VRaw [9])) 17; OItem (TEnd 130) 11; OItem (TElem 236 (VB [0])) 20;
+     OItem (TEnd 129) 5; OItem (TElem 191 (VRaw [255])) 23; ONone].
+Proof. vm_compute. repeat split; reflexivity. Qed.
+
+(* the same bytes under the strict configuration (same specification, unknown ids rejected): the reader stops with
+   InvalidTagId at the first raw tag — at offset 0; without the leading raw tag, at the first one inside Root *)
+Example C01_ex_raw_strict :
+  p_run C01k_cfg (enc_forest C01r_doc) [RAll] = [OErr (RInvalidTagId 0 191)] /\
+  p_run C01k_cfg (enc_forest (tl C01r_doc)) [RAll] = [OItem (TStart 129) 0; OErr (RInvalidTagId 2 16700)].
+Proof. vm_compute. split; reflexivity. Qed.
+
+(* the writer side: one write per tag with the explicit widths of the document emits exactly its encoding; write_raw emits
+   the raw tags with the smallest size width *)
+Example C01_ex_raw_written :
+  snd (run_writer C01k_sp (wops_forest false C01r_doc) []) = enc_forest C01r_doc /\
+  Forall (fun r => fst r = WOk) (fst (run_writer C01k_sp (wops_forest false C01r_doc) [])) /\
+  run_writer C01k_sp [OpRaw 191 [1; 2; 3]; OpWrite (TStart 129) o_default; OpRaw 16700 []; OpWrite (TEnd 129) o_default] [] =
+    ([(WOk, 5); (WOk, 5); (WOk, 5); (WOk, 10)]%nat, [191; 131; 1; 2; 3; 129; 131; 65; 60; 128]) /\
+  map out_tag (p_run C01r_cfg [191; 131; 1; 2; 3; 129; 131; 65; 60; 128] [RAll]) =
+    [Some (TElem 191 (VRaw [1; 2; 3])); Some (TStart 129); Some (TElem 16700 (VRaw [])); Some (TEnd 129); None].
+Proof. vm_compute. repeat split; try reflexivity. repeat constructor. Qed.
